@@ -72,9 +72,22 @@ def make_contracts(L):
         shape = (d,) if L is BlockL else ()
         return (jnp.asarray(rng.uniform(0.5, 2.0, size=shape)),), {}
 
+    def resc_instances(tier):
+        out = rv_inst(resc_extra)(tier)
+        # stacked Gaussians with one factor per stacked element (and per dimension for block-diag); the stack length is
+        # chosen both equal to and different from the state dimension (broadcasting slips hide when they coincide)
+        for T, n, d in [(2, 2, 1), (3, 2, 1)] + ([(4, 2, 2)] if tier == "thorough" else []):
+            def make(rng, T=T, n=n, d=d):
+                rvs = [L.normal_obj(rng, n, d) for _ in range(T)]
+                rv = type(rvs[0])(jnp.stack([r.mean_flat for r in rvs]), jnp.stack([r.cholesky_flat for r in rvs]), rvs[0].tree_flatten)
+                shape = (T, d) if L is BlockL else (T,)
+                return (rv, jnp.asarray(rng.uniform(0.5, 2.0, size=shape))), {}
+            out.append(Instance(f"stacked,T={T},n={n},d={d}", make, names=_names))
+        return out
+
     C["rescale_cholesky"] = Contract(
         name=f"{pre}.rescale_cholesky", module=L.module, qualname=f"{L.normal}.rescale_cholesky",
-        ensures=resc_ens, instances=rv_inst(resc_extra),
+        ensures=resc_ens, instances=resc_instances,
         doc="same mean, cov scaled by factor^2 (per dimension for block-diag)",
     )
 
